@@ -185,8 +185,13 @@ class NameSanitizer:
 
     @staticmethod
     def normalize_tag_key(tag: str) -> str:
-        """Normalize a tag for case-insensitive uniqueness (e.g., datasources)."""
-        return re.sub(r"[\W_]+", "", tag).lower()
+        """Normalize a tag for case-insensitive uniqueness (e.g., datasources).
+
+        The key is derived from the module name the tag's client is written to, so tags whose clients would
+        land in the same module (``"é"`` and ``"中"`` both become ``unnamed``; ``"a"`` and ``"aé"`` both ``a``)
+        share one client instead of the later group silently overwriting the earlier one's file.
+        """
+        return NameSanitizer.sanitize_module_name(tag).replace("_", "")
 
     @staticmethod
     def sanitize_filename(name: str, suffix: str = ".py") -> str:
